@@ -160,6 +160,11 @@ func trustedResourceURLFormat(format string, args map[string]string) (TrustedRes
 		// other or with the surrounding format string into a ".." path segment.
 		return TrustedResourceURL{}, fmt.Errorf(`formatted URL %q must not contain ".."`, ret)
 	}
+	if err == nil && !strings.HasPrefix(format, "//") && (strings.HasPrefix(ret, "//") || strings.HasPrefix(ret, `/\`)) {
+		// The format is a path ("/%{dir}/x.js"), but an empty argument directly after the leading
+		// slash makes the result start with "//" or "/\", which a browser reads as a host.
+		return TrustedResourceURL{}, fmt.Errorf(`formatted URL %q must not start with "//" or "/\": the format %q is a path`, ret, format)
+	}
 	return TrustedResourceURL{ret}, err
 }
 
